@@ -79,7 +79,23 @@ class _TProc(T):
 
 TResult, TWorker, TCallback, TSubmitCb, TExcClasses, TProc = _TResult(), _TWorker(), _TCallback(), _TSubmitCb(), _TExcClasses(), _TProc()
 InItem = TRec("QInItem", {"index": TInt, "input": TVal})
-OptInItem = TOpt(InItem)
+
+
+class _InSlot:
+    """What travels in the in-queue: a task item or the None sentinel (own datatype: constructor names distinct from TOpt's)."""
+
+    def __init__(self):
+        dt = z3.Datatype("QInSlot")
+        dt.declare("sentinel")
+        dt.declare("task", ("task_item", InItem.sort()))
+        self.dt = dt.create()
+        self.dt.none, self.dt.some, self.dt.get, self.dt.is_none = self.dt.sentinel, self.dt.task, self.dt.task_item, self.dt.is_sentinel
+
+    def sort(self):
+        return self.dt
+
+
+OptInItem = _InSlot()
 OutItem = TRec("QOutItem", {"index": TInt, "output": TResult})
 CbRec = TRec("CbRec", {"fn": TCallback, "index": TInt, "output": TResult})
 
